@@ -73,7 +73,7 @@ extern "C" int pthread_mutex_unlock(pthread_mutex_t *m) {
             }
         } else {
             uint32_t x = rnd();
-            if ((int)(x % 1000) < p / 3) usleep(100 + (x >> 10) % 2900);
+            if ((int)(x % 1000) < p / 2) usleep(100 + (x >> 10) % 2900);
         }
     }
     return r;
